@@ -151,6 +151,10 @@ fn main() {
     let max_len = run.pick(4, 5);
     let all = strings(&ALPHA, max_len);
     if let Some(n) = run.describe_unit() {
+        if n as usize >= all.len() {
+            println!("{}", json!({"whitespace_phase_unit": n as usize - all.len()}));
+            return;
+        }
         println!("{}", json!({"a": all[n as usize], "b": format!("every string over {ALPHA:?} with at most {max_len} symbols"), "flags": "all 8 combinations"}));
         return;
     }
@@ -162,6 +166,26 @@ fn main() {
         "rule".into(),
         json!("every ordered pair (a, b) of strings over the alphabet up to the length bound x every flag combination, enumerated exhaustively in shortlex order; a case is non-trivial when both strings are non-empty and their reference distance is positive"),
     );
+    // phase 2: every kind of White_Space where phase 1 only has U+0020 — pairs over {a, b, W} with W
+    // instantiated by tab, NBSP, ideographic space and line separator (the flag
+    // spaces_insert_delete_only speaks about whitespace, not about the space character)
+    let ws_all = strings(&["a", "b", "W"], run.pick(3, 4));
+    let ws_chars = ["\t", "\u{a0}", "\u{3000}", "\u{2028}"];
+    run.bounds.insert("whitespace_phase".into(), json!(format!("all pairs of the {} strings over [a, b, W] x W in {ws_chars:?} x all flags", ws_all.len())));
+    for (iw, w) in ws_chars.iter().enumerate() {
+        for (ia, a) in ws_all.iter().enumerate() {
+            if !run.unit((all.len() + iw * ws_all.len() + ia) as u64) {
+                continue;
+            }
+            let a = a.replace('W', w);
+            for b in &ws_all {
+                let b = b.replace('W', w);
+                for flags in 0..8u32 {
+                    check(&mut run, &a, &b, flags & 1 != 0, flags & 2 != 0, flags & 4 != 0);
+                }
+            }
+        }
+    }
     for (ia, a) in all.iter().enumerate() {
         if !run.unit(ia as u64) {
             continue;
